@@ -248,6 +248,35 @@ def wstepR (c : Cfg) (rw : Nat) (idx : Key → Nat) (routable : Key → Bool) (w
 def MWR (c : Cfg) (rw : Nat) (idx : Key → Nat) (routable : Key → Bool) : LTS WState Act :=
   ⟨winit, wstepR c rw idx routable⟩
 
+/-! ### routing with internal state (what the routing code could do, but must not) -/
+
+/-- a router: given its internal state (memo tables, tables shared with other containers …) and a key it names
+    a shard and moves to a new internal state; `other` is what creating or using ANOTHER container of the process
+    (any other `remap.ReMap` user) does to that state. -/
+structure Router (ρ : Type) where
+  route : ρ → Key → Nat × ρ
+  other : ρ → ρ
+
+/-- events of a process that owns one sharded map: a call on the map, or activity of another container -/
+inductive HAct
+  | act (a : Act)
+  | other
+deriving DecidableEq, Repr
+
+def hstep {ρ : Type} (c : Cfg) (rw : Nat) (R : Router ρ) (s : WState × ρ) : HAct → Option (WState × ρ)
+  | .act a =>
+    match step c rw (s.1 (R.route s.2 a.key).1) a with
+    | none => none
+    | some s' => some (wupd s.1 (R.route s.2 a.key).1 s', (R.route s.2 a.key).2)
+  | .other => some (s.1, R.other s.2)
+
+/-- a sharded map whose routing may depend on history and on other containers -/
+def MWH {ρ : Type} (c : Cfg) (rw : Nat) (R : Router ρ) (r0 : ρ) : LTS (WState × ρ) HAct := ⟨(winit, r0), hstep c rw R⟩
+
+/-- routing is a pure function of the key (for the map's prime): independent of lookup history and of whatever
+    other containers exist or do -/
+def Router.Pure {ρ : Type} (R : Router ρ) (idx : Key → Nat) : Prop := ∀ r k, (R.route r k).1 = idx k
+
 /-- the single map a sharded map behaves like: key `k` read from the shard it routes to -/
 def wproj (idx : Key → Nat) (ws : WState) : State := fun k => ws (idx k) k
 
